@@ -273,7 +273,7 @@ fn panic_child(t: usize, n: usize, j: usize, delay_ms: u64) -> Result<(), String
             .map_err(|e| e.to_string())?;
         let t0 = Instant::now();
         let mut status = None;
-        while t0.elapsed() < Duration::from_secs(15) {
+        while t0.elapsed() < Duration::from_secs(30) {
             beat();
             if let Ok(Some(s)) = child.try_wait() {
                 status = Some(s);
@@ -290,7 +290,7 @@ fn panic_child(t: usize, n: usize, j: usize, delay_ms: u64) -> Result<(), String
                 let _ = child.kill();
                 let _ = child.wait();
                 if attempt == 1 {
-                    return Err(format!("worker function panicked at item {j} (T={t}, n={n}) but the process was still alive after 15 s (twice): the consumer is blocked forever"));
+                    return Err(format!("worker function panicked at item {j} (T={t}, n={n}) but the process was still alive after 30 s (twice): the consumer is blocked forever"));
                 }
             }
         }
@@ -329,7 +329,7 @@ impl Prop for C09 {
         vec![
             "the bounds 4T+4 (Pipe) and 2*buffer+4 (Buffered) are deliberately looser than the tight values of the current code (2T, buffer+2): the property asks for a constant independent of the input length".into(),
             "real-thread runs have no timing verdicts: the upstream iterator records a violation itself when a bound is exceeded; waiting for thread exit relies on the watchdog (the statement says the threads exit)".into(),
-            "panic => exit: a child that is still alive after 15 s, twice, counts as blocked forever; a child that completes with exit status 0 although an item panicked counts as a swallowed failure".into(),
+            "panic => exit: a child that is still alive after 30 s, twice, counts as blocked forever; a child that completes with exit status 0 although an item panicked counts as a swallowed failure".into(),
         ]
     }
 
